@@ -14,6 +14,7 @@ RULE = (
     "replaced/deleted, or unrelated) x {unchecked, skip, wrap} x {fast_diff_match_patch, difflib}; before/after are "
     "private-use sentinels that occur in neither text; plus spans returned by get_citations on marked-up grammar "
     "documents. Oracle (round trip): deleting the sentinels from the output gives the target text exactly. "
+    "A quarter of the cases repeat the call with annotator=concatenation (the documented default of the hook): same output. "
     "Non-trivial: >= 2 annotations with an overlap/touch/empty span, or source != plain; distinct = distinct case"
 )
 ASSUMPTIONS = ["before/after strings contain no backslash and do not occur in the texts (the statement's precondition)"]
@@ -57,6 +58,23 @@ def evaluate(case):
         stripped = _SENT.sub("", out)
         if stripped != target:
             res.v(f"not-additive[{mode}]:{'source' if source else 'plain'}", f"plain={plain!r} spans={spans} source={source!r} dmp={dmp} -> {out!r}")
+        if case.get("annotator"):
+            # the documented default of the `annotator` hook is plain concatenation: passing exactly that must not
+            # change the output, and what it is handed as citation text must be text of the target
+            seen = []
+
+            def concat(before, text, after):
+                seen.append(text)
+                return before + text + after
+
+            out2 = call(annotate_citations, plain, anns, source_text=source, unbalanced_tags=mode, use_dmp=dmp, annotator=concat)
+            res.label("annotator-hook")
+            if isinstance(out2, Raised):
+                res.v(f"raises[{mode}]:annotator:{out2.type}@{out2.site}", f"{out2!r} for plain={plain!r} spans={spans} source={source!r}")
+            elif out2 != out:
+                res.v(f"annotator-hook-changes-output[{mode}]", f"plain={plain!r} spans={spans} source={source!r} dmp={dmp}: {out!r} vs {out2!r}")
+            elif mode != "wrap" and any(t not in target for t in seen):
+                res.v(f"annotator-handed-foreign-text[{mode}]", f"plain={plain!r} spans={spans} source={source!r}: {seen!r}")
     srt = sorted(spans)
     special = any(a == b for a, b in spans) or any(x[1] >= y[0] for x, y in zip(srt, srt[1:]))
     res.nontrivial = (len(spans) >= 2 and special) or bool(source and source != plain)
@@ -123,7 +141,8 @@ def _case(draw):
         a = draw(st.integers(0, len(plain)))
         b = draw(st.integers(a, len(plain)))
         spans.append([a, b])
-    return {"plain": plain, "anns": spans, "source": source, "mode": draw(st.sampled_from(MODES)), "dmp": draw(st.booleans()), "iter": draw(st.integers(0, 4)) == 0}
+    return {"plain": plain, "anns": spans, "source": source, "mode": draw(st.sampled_from(MODES)), "dmp": draw(st.booleans()), "iter": draw(st.integers(0, 4)) == 0,
+            "annotator": draw(st.integers(0, 3)) == 0}
 
 
 @st.composite
@@ -152,7 +171,8 @@ def _tagrich(draw):
     source = None
     if draw(st.integers(0, 3)) == 0:
         source = draw(_source_for(plain))
-    return {"plain": plain, "anns": spans, "source": source, "mode": draw(st.sampled_from(["skip", "skip", "wrap"])), "dmp": draw(st.booleans())}
+    return {"plain": plain, "anns": spans, "source": source, "mode": draw(st.sampled_from(["skip", "skip", "wrap"])), "dmp": draw(st.booleans()),
+            "annotator": draw(st.integers(0, 3)) == 0}
 
 
 @st.composite
